@@ -50,9 +50,10 @@ theorem handlerSim_of_refines (HR : HostRefines S host) {s : σ} {m : MState F} 
   | val v =>
     obtain ⟨a, s1, h1, d1, e1⟩ := href
     refine ⟨next, s1, h1, hnext, e1.keeps.cur, ?_⟩
-    exact ⟨e1.regs ▸ .cons d1 (decodesList_keeps e1.keeps hrest), e1.vals ▸ decodesList_keeps e1.keeps hvals,
+    refine ⟨⟨e1.regs ▸ .cons d1 (decodesList_keeps e1.keeps hrest), e1.vals ▸ decodesList_keeps e1.keeps hvals,
       e1.frames ▸ framesRel_keeps e1.keeps hfr, fun i => by rw [e1.keeps.instr]; exact hprog.1 i,
-      fun j => by rw [e1.keeps.jump]; exact hprog.2.1 j, by rw [e1.keeps.ilen]; exact hprog.2.2⟩
+      fun j => by rw [e1.keeps.jump]; exact hprog.2.1 j, by rw [e1.keeps.ilen]; exact hprog.2.2⟩,
+      e1.keeps.dec⟩
   | defer op a b =>
     obtain ⟨s0, e0, hprot⟩ := href
     obtain ⟨da, db⟩ := hdefer op a b rfl
@@ -73,12 +74,13 @@ theorem handlerSim_of_refines (HR : HostRefines S host) {s : σ} {m : MState F} 
       rw [h1] at hprot
       simp only [] at hprot ⊢
       refine ⟨next, s1, hprot, hnext, he.keeps.cur.trans e0.keeps.cur, ?_⟩
-      exact ⟨he.regs ▸ e0.regs ▸ .cons d1 (decodesList_keeps he.keeps hrest0),
+      refine ⟨⟨he.regs ▸ e0.regs ▸ .cons d1 (decodesList_keeps he.keeps hrest0),
         he.vals ▸ e0.vals ▸ decodesList_keeps he.keeps hvals0,
         he.frames ▸ e0.frames ▸ framesRel_keeps he.keeps hfr0,
         fun i => by rw [he.keeps.instr, e0.keeps.instr]; exact hprog.1 i,
         fun j => by rw [he.keeps.jump, e0.keeps.jump]; exact hprog.2.1 j,
-        by rw [he.keeps.ilen, e0.keeps.ilen]; exact hprog.2.2⟩
+        by rw [he.keeps.ilen, e0.keeps.ilen]; exact hprog.2.2⟩,
+        (e0.keeps.trans he.keeps).dec⟩
     | none =>
       rw [hh] at hans
       obtain ⟨s1, h1, he⟩ := hans
@@ -87,12 +89,13 @@ theorem handlerSim_of_refines (HR : HostRefines S host) {s : σ} {m : MState F} 
       obtain ⟨u, s2, h2, d2, e2⟩ := hprot
       refine ⟨next, s2, h2, hnext, e2.keeps.cur.trans (he.keeps.cur.trans e0.keeps.cur), ?_⟩
       have k12 := he.keeps.trans e2.keeps
-      exact ⟨e2.regs ▸ he.regs ▸ e0.regs ▸ .cons d2 (decodesList_keeps k12 hrest0),
+      refine ⟨⟨e2.regs ▸ he.regs ▸ e0.regs ▸ .cons d2 (decodesList_keeps k12 hrest0),
         e2.vals ▸ he.vals ▸ e0.vals ▸ decodesList_keeps k12 hvals0,
         e2.frames ▸ he.frames ▸ e0.frames ▸ framesRel_keeps k12 hfr0,
         fun i => by rw [e2.keeps.instr, he.keeps.instr, e0.keeps.instr]; exact hprog.1 i,
         fun j => by rw [e2.keeps.jump, he.keeps.jump, e0.keeps.jump]; exact hprog.2.1 j,
-        by rw [e2.keeps.ilen, he.keeps.ilen, e0.keeps.ilen]; exact hprog.2.2⟩
+        by rw [e2.keeps.ilen, he.keeps.ilen, e0.keeps.ilen]; exact hprog.2.2⟩,
+        (e0.keeps.trans k12).dec⟩
 
 
 section
